@@ -228,8 +228,8 @@ PROPS = {
         "technique": "deterministic simulation of operation histories: seeded edit/read/read-only sequences on 1-2 documents sharing the process-global caches, concurrent reads inside the seeded scheduler, every view compared with a reference model (fresh decode of the current text) after every step",
         "level_text": ("Seeded exploration of histories over the public edit API (add/delete/replace child nodes, add individuals and families, set/clear husband and wife by node and "
                        "by pointer, add children, delete and replace root records) interleaved with plain reads that warm single caches and with read-only operations (Warnings, String, "
-                       "Compare and DiffPage with 1-8 jobs and Publish with 1-8 jobs inside the seeded scheduler, SurroundingSimilarity, CompareNodes+Sort, DeepCopy/Filter into "
-                       "another document, queries). After every step every derived view of every session, normalised to tree positions, must equal the same view of a fresh decode "
+                       "Compare and DiffPage with 1-8 jobs and Publish with 1-8 jobs inside the seeded scheduler, SurroundingSimilarity, CompareNodes+Sort, DeepCopy/ShallowCopy/Filter into "
+                       "another document, MergeNodes and MergeDocumentsAndIndividuals into a third document, queries). After every step every derived view of every session, normalised to tree positions, must equal the same view of a fresh decode "
                        "of the session's current text; read-only operations must leave text and views byte-identical; a second session shares the process-global caches."),
         "level_note": ("Exhaustive enumeration of short histories is not done (seeded sampling only). In one case out of four the views are only compared at the end, so edits also "
                        "meet cold caches; a failing end state is then attributed by replaying prefixes. Histories that leave the decodable space or create duplicate pointers end "
